@@ -78,6 +78,7 @@ def corpus():
     items.extend(free_format(items))
     items.extend(without_a_option(items))
     items.extend(other_tails(items))
+    items.extend(not_converged(items))
     _STATE['corpus'] = items
     _STATE['by_name'] = {it['name']: i for i, it in enumerate(items)}
     return items
@@ -166,6 +167,36 @@ def rerun_twins(items):
                 'twin_of': item['name'], 'rerun': True}
         out.append(twin)
         item['twin'] = twin['name']
+    return out
+
+
+def not_converged(items):
+    '''A job killed early has run few batches: Tripoli-4 prints "NOT YET
+    CONVERGED" in place of integrated results and "Not converged" in the
+    tables of combined k-effective estimators.  The grammar accepts both.'''
+    import re
+    out = []
+    integrated = re.compile(rb'^number of batches used:[ \t]*\d+[ \t]+'
+                            rb'[-+0-9.eE]+[ \t]+[-+0-9.eE]+[ \t]*$', re.M)
+    combo = re.compile(rb'^([ \t]*K\w+ <-> K\w+[ \t]+)([-+0-9.eE]+)([ \t]+)'
+                       rb'([-+0-9.eE]+)', re.M)
+    for item in items:
+        if item.get('path') is None or 'failure' in item['base']:
+            continue
+        data = item['data']
+        if integrated.search(data) and \
+                len([o for o in out if 'integrated' in o['name']]) < 6:
+            out.append({'name': 'not-converged-integrated/' + item['base'],
+                        'path': None, 'base': 'nci-' + item['base'],
+                        'data': integrated.sub(b'\t NOT YET CONVERGED ', data),
+                        'derived': True})
+        if combo.search(data):
+            for col, repl in ((2, rb'\1Not converged\3\4'),
+                              (4, rb'\1\2\3Not converged')):
+                out.append({'name': 'not-converged-keff-col%d/%s'
+                            % (col, item['base']), 'path': None,
+                            'base': 'nck%d-%s' % (col, item['base']),
+                            'data': combo.sub(repl, data), 'derived': True})
     return out
 
 
